@@ -684,7 +684,7 @@ type pathState struct {
 	// expression): the entry it equals, or that it equals none of the table's keys
 	keyFact map[string]keyFact
 	// nilFact: values compared with nil at a branch the path took (+1 non-nil, -1 nil)
-	nilFact map[ssa.Value]int
+	nilFact map[nilKey]int
 	// callRes: canonical results of helpers expanded on this path (enumerator.callResults)
 	callRes map[*ssa.Call][]string
 }
@@ -949,7 +949,9 @@ func (e *enumerator) walkFn(fn *ssa.Function, ev []string, depth int, k func(ev 
 						// arguments are printed with helper results resolved, so a value
 						// computed by one helper and handed to the next keeps its identity
 						e.w.cur = &pathCtxt{st: st, eval: e.eval}
-						env[p] = e.w.canonResolved(e.resolve(callArgs[j], st))
+						av := e.resolve(callArgs[j], st)
+						env[p] = e.w.canonResolved(av)
+						e.w.noteInlinedTwin(env[p], av)
 					}
 					next := i + 1
 					e.w.inlineEnv = append(e.w.inlineEnv, env)
@@ -1209,19 +1211,20 @@ func (e *enumerator) walkFn(fn *ssa.Function, ev []string, depth int, k func(ev 
 				branch := func(taken bool, succ *ssa.BasicBlock) {
 					if tested != nil {
 						if st.nilFact == nil {
-							st.nilFact = map[ssa.Value]int{}
+							st.nilFact = map[nilKey]int{}
 						}
-						old, had := st.nilFact[tested]
+						tk := st.nk(tested)
+						old, had := st.nilFact[tk]
 						if taken == nilOnTrue {
-							st.nilFact[tested] = -1
+							st.nilFact[tk] = -1
 						} else {
-							st.nilFact[tested] = 1
+							st.nilFact[tk] = 1
 						}
 						defer func() {
 							if had {
-								st.nilFact[tested] = old
+								st.nilFact[tk] = old
 							} else {
-								delete(st.nilFact, tested)
+								delete(st.nilFact, tk)
 							}
 						}()
 					}
@@ -1276,7 +1279,7 @@ func (e *enumerator) termOf(ret *ssa.Return, st *pathState, fn *ssa.Function) st
 			}
 			return "err"
 		}
-		switch st.nilFact[stripConv(v)] {
+		switch st.nilFact[st.nk(stripConv(v))] {
 		case 1:
 			return "err"
 		case -1:
@@ -1445,6 +1448,22 @@ func loadCell(v ssa.Value, st *pathState) (memVal, bool) {
 		}
 	}
 	return memVal{}, false
+}
+
+// nilKey: a value as one dynamic instance — the SSA value together with how often
+// the path has entered its defining block (a value computed in a loop body is a
+// new value in every iteration).
+type nilKey struct {
+	v ssa.Value
+	n int
+}
+
+func (st *pathState) nk(v ssa.Value) nilKey {
+	n := 0
+	if in, ok := v.(ssa.Instruction); ok && in.Block() != nil {
+		n = st.onPath[in.Block()]
+	}
+	return nilKey{v, n}
 }
 
 type keyFact struct {
@@ -1850,7 +1869,7 @@ func (w *World) evalBool(v ssa.Value, st *pathState, eval func(ssa.Value) (bool,
 						}
 						break
 					}
-					switch st.nilFact[rv] {
+					switch st.nilFact[st.nk(rv)] {
 					case 1:
 						return x.Op == token.NEQ, true
 					case -1:
@@ -2177,7 +2196,9 @@ func (w *World) helperResult(call *ssa.Call, idx int, st *pathState, eval func(s
 	}
 	env := map[*ssa.Parameter]string{}
 	for j, p := range cal.Params {
-		env[p] = w.Canon(w.resolveValue(callArgs[j], st, eval, depth+1))
+		av := w.sameFrame(callArgs[j], w.resolveValue(callArgs[j], st, eval, depth+1))
+		env[p] = w.Canon(av)
+		w.noteInlinedTwin(env[p], av)
 	}
 	w.inlineEnv = append(w.inlineEnv, env)
 	vals, complete := w.returnedValues(cal, idx, eval, depth+1)
@@ -2311,11 +2332,25 @@ func (w *World) returnedValues(fn *ssa.Function, idx int, eval func(ssa.Value) (
 	return out, complete
 }
 
+// sameFrame: a value looked through a helper may be a value of the helper's frame,
+// whose parameters print under the helper's own names; for naming an argument
+// the value as the caller wrote it is used then.
+func (w *World) sameFrame(orig, resolved ssa.Value) ssa.Value {
+	oi, ok1 := orig.(ssa.Instruction)
+	ri, ok2 := resolved.(ssa.Instruction)
+	if ok1 && ok2 && oi.Parent() != nil && ri.Parent() != nil && oi.Parent() != ri.Parent() {
+		return orig
+	}
+	return resolved
+}
+
 // nilnessOnPath: +1 v is certainly non-nil on this path, -1 certainly nil, 0 unknown.
 func (w *World) nilnessOnPath(v ssa.Value, st *pathState, eval func(ssa.Value) (bool, bool), depth int) int {
 	rv := w.resolveValue(v, st, eval, depth)
 	// a helper with several feasible returns: decided when they agree on nil-ness
-	if rv == v || rv == stripConv(v) {
+	// (also when they are one and the same value of the helper's frame: its
+	// nil-ness is known where the helper returns it, not where it was computed)
+	if _, inOtherFrame := w.sameFrame(v, rv).(ssa.Value); rv == v || rv == stripConv(v) || (inOtherFrame && w.sameFrame(v, rv) == v) {
 		var call *ssa.Call
 		idx := 0
 		switch y := stripConv(v).(type) {
@@ -2330,6 +2365,10 @@ func (w *World) nilnessOnPath(v ssa.Value, st *pathState, eval func(ssa.Value) (
 			callArgs := call.Common().Args
 			if cal == nil && !call.Common().IsInvoke() {
 				// a handler the path picked (from a dispatch table, a switch)
+				if os.Getenv("RIGOCHECK_DEBUG") == "nilness" {
+					rvv := w.resolveValue(call.Common().Value, st, eval, 3)
+					fmt.Println("DBG nilness dyn", w.Canon(call), fmt.Sprintf("%T", rvv), len(st.mem), st.ival)
+				}
 				if f, rcv := w.calleeOfValue(w.resolveValue(call.Common().Value, st, eval, 3)); f != nil {
 					cal = f
 					if rcv != nil {
@@ -2340,7 +2379,9 @@ func (w *World) nilnessOnPath(v ssa.Value, st *pathState, eval func(ssa.Value) (
 			if cal != nil && w.InModule(cal) && cal.Blocks != nil && depth <= 2 && len(cal.Params) == len(callArgs) {
 				env := map[*ssa.Parameter]string{}
 				for j, p := range cal.Params {
-					env[p] = w.Canon(w.resolveValue(callArgs[j], st, eval, depth+1))
+					av := w.sameFrame(callArgs[j], w.resolveValue(callArgs[j], st, eval, depth+1))
+					env[p] = w.Canon(av)
+					w.noteInlinedTwin(env[p], av)
 				}
 				w.inlineEnv = append(w.inlineEnv, env)
 				vals, complete := w.returnedValues(cal, idx, eval, depth+1)
